@@ -34,6 +34,23 @@ func hostileBytes(n J, b *bytes.Buffer) {
 			b.WriteString(`"x"`)
 			b.WriteString(strings.Repeat("}", d))
 		}
+	case "chain":
+		d := int(num(n["n"]))
+		terms := []string{n["a"].(string), n["b"].(string)}
+		for i := 0; i < d; i++ {
+			b.WriteByte('{')
+			switch n["style"] {
+			case "typed":
+				fmt.Fprintf(b, `"id":"https://example.com/c/%d","type":"Note",`, i)
+			case "href":
+				fmt.Fprintf(b, `"href":"https://example.com/h/%d",`, i)
+			case "link":
+				fmt.Fprintf(b, `"type":"Link","href":"https://example.com/h/%d",`, i)
+			}
+			fmt.Fprintf(b, `"name":"n%d",%q:`, i, terms[i%2])
+		}
+		b.WriteString(`"https://example.com/end"`)
+		b.WriteString(strings.Repeat("}", d))
 	case "raw":
 		b.WriteString(n["text"].(string))
 	case "arr":
